@@ -605,6 +605,56 @@ Proof. intros H f r Hf Hr Hreg. apply row_ok_y_g; [|assumption]. now apply (chec
 Lemma check_groups_In gs : check_groups gs = true -> forall g, In g gs -> check_group g = true.
 Proof. unfold check_groups. intros H g Hg. rewrite forallb_forall in H. auto. Qed.
 
+(** cross-platform groups: rows and wrappers without exception, completeness up to the drift list *)
+Theorem check_xgroup_spec drift g : check_xgroup drift g = true ->
+  (forall f r, In f (g_files g) -> In r (f_rows f) -> row_ok const_y g f r = true)
+  /\ complete_upto drift g = true /\ forwards g = true.
+Proof.
+  unfold check_xgroup, rows_ok. intros H.
+  apply andb_true_iff in H. destruct H as [H Hf]. apply andb_true_iff in H. destruct H as [Hr Hc].
+  repeat split; try assumption.
+  intros f r Hin Hrin. rewrite forallb_forall in Hr. specialize (Hr f Hin).
+  rewrite forallb_forall in Hr. now apply Hr.
+Qed.
+
+Corollary check_xgroup_exact drift g : check_xgroup drift g = true ->
+  forall f r, In f (g_files g) -> In r (f_rows f) -> row_region g r = false -> row_ok const_g g f r = true.
+Proof. intros H f r Hf Hr Hreg. apply row_ok_y_g; [|assumption]. now apply (check_xgroup_spec drift g H). Qed.
+
+Lemma check_xgroups_In drift gs : check_xgroups drift gs = true -> forall g, In g gs -> check_xgroup drift g = true.
+Proof. unfold check_xgroups. intros H g Hg. rewrite forallb_forall in H. auto. Qed.
+
+Lemma nmem_In x l : nmem x l = true <-> In x l.
+Proof.
+  unfold nmem. rewrite exb_exists. split.
+  - intros (y & Hy & E). apply N.eqb_eq in E. now subst.
+  - intros H. exists x. split; [assumption | apply N.eqb_refl].
+Qed.
+
+(** what [complete_upto] means: an expected object without a row is one of the listed drift objects,
+    and the api lists say nothing about it *)
+Theorem complete_upto_spec drift g : complete_upto drift g = true -> g_complete g = true ->
+  forall tp t, In tp (g_truth g) -> In t (tp_objs tp) ->
+  obj_complete g tp t = true \/ (t_api t = ANone /\ In (t_id t) drift).
+Proof.
+  unfold complete_upto. intros H Hc tp t Htp Ht. rewrite Hc in H. cbn in H.
+  rewrite forallb_forall in H. specialize (H tp Htp). rewrite forallb_forall in H. specialize (H t Ht).
+  unfold obj_complete_upto in H. destruct (obj_complete g tp t); [now left|]. right.
+  unfold no_api in H. destruct (t_api t); [|discriminate]. split; [reflexivity|]. now apply nmem_In.
+Qed.
+
+(** with an empty drift list this is completeness itself *)
+Lemma obj_complete_upto_nil g tp t : obj_complete_upto [] g tp t = obj_complete g tp t.
+Proof. unfold obj_complete_upto. destruct (obj_complete g tp t); [reflexivity|]. destruct (no_api t); reflexivity. Qed.
+
+Lemma complete_upto_nil g : complete_upto [] g = complete g.
+Proof.
+  unfold complete_upto, complete. f_equal.
+  induction (g_truth g) as [|tp l IH]; cbn [forallb]; [reflexivity|]. rewrite IH. f_equal.
+  induction (tp_objs tp) as [|t l' IH']; cbn [forallb]; [reflexivity|].
+  now rewrite IH', obj_complete_upto_nil.
+Qed.
+
 (* ------------------------------------------------------------------ *)
 (** * Witnesses and packaged statements *)
 
